@@ -799,4 +799,30 @@ theorem bypass_breaks_rollback :
   revert this
   decide
 
+/-! ### Round h: every read of the public surface that hands out a Graph object -/
+
+/-- For every source of Graph objects (store-level `contexts` / `triples`, `ConjunctiveGraph.contexts`,
+    `.contexts(triple)`, `.quads`, `get_context` / `default_context` / `get_graph`, `Graph.resource`,
+    `Collection`, the namespace manager): every object handed out is bound to the wrapper, hence
+    (`handed_out_graphs_log`) every write through it is a step of the wrapper and is covered by the history
+    theorems.  (A `Graph(store=wrapper.store)` the caller builds himself is bound to the wrapped store by
+    construction: outside the statement, `bypass_breaks_rollback` shows what it does.) -/
+def Statement_every_source_hands_out_wrapper_graphs : Prop :=
+  ∀ (s : XW) (src : Source), src ∈ Source.all ∧ ∀ h ∈ handOut s src, h.2 = Bound.wrapper ∧
+    ∀ w : HWrite, ∃ o : XOp, s.writeVia h w = s.step o
+
+theorem every_source_hands_out_wrapper_graphs : Statement_every_source_hands_out_wrapper_graphs := by
+  intro s src
+  have hb : ∀ h ∈ handOut s src, h.2 = Bound.wrapper := by
+    intro h hh
+    cases src <;>
+      simp only [handOut, handOutContexts, handOutTriples, graphLayer, List.mem_map, List.mem_flatMap] at hh
+    all_goals first
+      | (obtain ⟨g, _, rfl⟩ := hh; rfl)
+      | (obtain ⟨tc, ⟨tc0, _, rfl⟩, hh2⟩ := hh
+         simp only [List.mem_map] at hh2
+         obtain ⟨g, _, rfl⟩ := hh2; rfl)
+      | (obtain ⟨t, _, g, _, rfl⟩ := hh; rfl)
+  refine ⟨by cases src <;> simp [Source.all], fun h hh => ⟨hb h hh, fun w => (handed_out_graphs_log s).2.2 h w (hb h hh)⟩⟩
+
 end RV.C18
